@@ -211,7 +211,7 @@ func genH(t *rapid.T) HCase {
 	c.HMin = rapid.SampledFrom([]int{0, 0, 1, 40, 200, 1 << 30}).Draw(t, "hmin")
 	c.ReqEnc = rapid.SampledFrom([]string{"", "", "identity", "gzip", "deflate", "zlib", "toy", "br", "GZIP", "snappy"}).Draw(t, "reqenc")
 	c.ReqFlag = rapid.Bool().Draw(t, "reqflag")
-	c.Accept = algList(t, "accept", []string{"gzip", "deflate", "zlib", "toy", "br", "identity", "zstd", "GZIP"}, 5)
+	c.Accept = algList(t, "accept", []string{"gzip", "deflate", "zlib", "toy", "br", "identity", "zstd", "GZIP", "gzip;q=0", "deflate;q=0", "toy; q=0"}, 5) // (q=0: explicitly refused)
 	c.AcceptSep = rapid.SampledFrom([]string{",", ", "}).Draw(t, "sep")
 	c.ReqSize = rapid.SampledFrom([]int{0, 3, 100, 3000}).Draw(t, "reqsize")
 	base := 100
